@@ -159,6 +159,7 @@ Definition accumulate_at (a : list Z -> A) (axis : Z) (idx : list Z) : option A 
   reducer (flat_slice a (accumulate_slices axis idx 0)) None.
 
 End Reduce.
+Arguments flat_slice {A}. Arguments reducer {A}. Arguments reduce_at {A}. Arguments accumulate_at {A}.
 
 (* index::mean_divisor (mean.hpp:70) on the already normalised axis *)
 Definition mean_divisor (s : list Z) (nax : axis_arg) : Z :=
@@ -254,6 +255,7 @@ Definition accumulate_spec (a : list Z -> A) (ndim : Z) (axis : Z) (idx : list Z
   fold_spec (map (fun k => a (set_at idx ax k)) (zrange (nth ax idx 0 + 1))) None.
 
 End Spec.
+Arguments spec_elems {A}. Arguments fold_spec {A}. Arguments reduce_spec {A}. Arguments accumulate_spec {A}.
 
 Definition reduce_shape_spec (s : list Z) (ax : axis_arg) (keepdims : bool) : list Z :=
   np_reduce_shape (red_mask (length s) ax) s keepdims.
